@@ -968,6 +968,10 @@ func c16PoolCases(thorough bool) []*scenario {
 								taCfg(fmt.Sprintf("avail-0-%d", ncpu-2), taAvailable(fmt.Sprintf("cpuset:0-%d", ncpu-2)), taReserved("cpuset:0")),
 								taCfg(fmt.Sprintf("avail-1-%d", ncpu-1), taAvailable(fmt.Sprintf("cpuset:1-%d", ncpu-1)), taReserved("1500m")),
 							}
+							if len(m.Isolated) > 0 {
+								// a kernel-isolated CPU as the (sole) reserved CPU is accepted by design
+								cfgs = append(cfgs, taCfg("rsv-isolated", taReserved(fmt.Sprintf("cpuset:%d", m.Isolated[0]))))
+							}
 							if thorough {
 								cfgs = append(cfgs, taCfg("avail-half", taAvailable(fmt.Sprintf("cpuset:0-%d", ncpu/2)), taReserved("cpuset:0")),
 									taCfg("rsv-last", taReserved(fmt.Sprintf("cpuset:%d", ncpu-2))))
